@@ -20,6 +20,17 @@ def run(tier):
     for f in ("NoCancelCleanup", "NoSenderCheck"):
         dev[f] = vlib.tlc_must_fail("Rpc", "MC_Rpc_%s.cfg" % f, "AsImplemented_" + f, workers=4).violated
     rep.coverage["deviation_counterexamples"] = dev
+    # unbounded in the number of steps: an inductive invariant of the typed model, discharged by Apalache
+    obligations = [("Init", "IndInv", 0), ("IndInv", "IndInv", 1), ("IndInv", "Props", 0)]
+    done = 0
+    for init, inv, length in obligations:
+        ok, secs = vlib.apalache("Rpc_apalache", init, inv, length)
+        if not ok:
+            raise vlib.ToolError("Apalache: %s => %s (length %d) not discharged" % (init, inv, length))
+        done += 1
+        vlib.log("Apalache Rpc_apalache %s => %s length %d: ok, %.1fs" % (init, inv, length, secs))
+    rep.coverage["inductive_invariant"] = {"module": "Rpc_apalache", "obligations": len(obligations), "discharged": done,
+                                           "meaning": "the C04 clauses hold for histories of any length over 3 ids x 2 peers x 2 values"}
     trace = os.path.join(wd, "trace.ndjson")
     vlib.run_harness(["c04", "drive", "out=" + trace, "segments=%d" % (12000 if big else 1200)], timeout=3000)
     res, tr = vlib.validate_trace("Trace_Rpc", "Trace_Rpc.cfg", trace, os.path.join(wd, "out.json"), timeout=3000)
